@@ -108,3 +108,92 @@ fn variants(q: &str) -> Vec<(String, String)> {
         }
     }
 }
+
+// ---- (c) term faithfulness: every term generated from the token grammars is kept verbatim, in every position ----
+fn product(first: &[&str], mid: &[&str], last: &[&str], max_items: usize) -> Vec<String> {
+    // all item sequences f, f l, f m l, f m m l ... up to max_items items
+    let mut out: Vec<String> = Vec::new();
+    for f in first {
+        out.push(f.to_string());
+        if max_items < 2 { continue; }
+        let mut mids: Vec<String> = vec![String::new()];
+        for depth in 0..=max_items - 2 {
+            for m in &mids { for l in last { out.push(format!("{}{}{}", f, m, l)); } }
+            if depth == max_items - 2 { break; }
+            let mut next = Vec::new();
+            for m in &mids { for x in mid { next.push(format!("{}{}", m, x)); } }
+            mids = next;
+        }
+    }
+    out
+}
+
+fn generated_terms() -> Vec<(&'static str, String)> {
+    let thorough = std::env::var("VERIF_TIER").map_or(false, |v| v == "thorough");
+    let n = if thorough { 5 } else { 4 };
+    let mut v: Vec<(&'static str, String)> = Vec::new();
+    // PN_LOCAL ::= (PN_CHARS_U | ':' | [0-9] | PLX) ((PN_CHARS | '.' | ':' | PLX)* (PN_CHARS | ':' | PLX))?
+    let first = ["a", "_", "1", ":", "%4a", "\\(", "\\-", "\\.", "\u{e9}"];
+    let last = ["a", "-", "1", ":", "%4A", "\\)", "\\.", "\u{b7}", "\u{301}", "\u{e9}"];
+    let mut mid = last.to_vec(); mid.push(".");
+    for prefix in ["p", "", "a.b", "\u{e9}x"] {
+        v.push(("prefixed name", format!("{}:", prefix)));
+        for local in product(&first, &mid, &last, if prefix == "p" { n } else { 2 }) { v.push(("prefixed name", format!("{}:{}", prefix, local))); }
+    }
+    // IRIREF ::= '<' ([^<>"{}|^`\]-[#x00-#x20] | UCHAR)* '>'
+    let iri_items = ["a", ":", "/", "#", "\u{e9}", "\\u00e9", "\\U0001D11E", "%41", "-", ".", "?", "="];
+    v.push(("IRI", "<>".to_string()));
+    for body in product(&iri_items, &iri_items, &iri_items, 3) { v.push(("IRI", format!("<{}>", body))); }
+    // string literals with escapes, then language tag / datatype
+    let str_items = ["a", " ", "\u{e9}", "\\\"", "\\\\", "\\n", "\\t", "\\u00e9", "'", "#", "{", "}", ".", "\u{1d11e}"];
+    let mut bodies = vec![String::new()];
+    bodies.extend(product(&str_items, &str_items, &str_items, 3));
+    for (i, b) in bodies.iter().enumerate() {
+        let suffixes: &[&str] = if i % 9 == 0 { &["", "@en", "@en-US", "^^<http://t/d>", "^^p:t"] } else { &[""] };
+        for s in suffixes { v.push(("string literal", format!("\"{}\"{}", b, s))); }
+    }
+    for b in ["", "a", "a b", "\\'", "\"", "\u{e9}#"] { v.push(("string literal", format!("'{}'", b))); }
+    for t in ["1", "12", "-1", "+1", "1.5", ".5", "-0.25", "1e3", "1.5E-3", "1.0e+10", "true", "false"] { v.push(("numeric / boolean literal", t.to_string())); }
+    // BLANK_NODE_LABEL ::= '_:' (PN_CHARS_U | [0-9]) ((PN_CHARS | '.')* PN_CHARS)?
+    for b in product(&["b", "1", "_", "\u{e9}"], &["a", "-", ".", "1", "\u{b7}"], &["a", "-", "1", "\u{b7}"], 3) { v.push(("blank node label", format!("_:{}", b))); }
+    // variables: the parser's fragment is ('?'|'$') followed by Unicode alphanumerics and '_' (U+00B7 and the combining
+    // marks of the full VARNAME production are outside the supported fragment, see sparql_variable)
+    for x in product(&["x", "_", "1", "\u{e9}"], &["a", "_", "1", "\u{e9}"], &["a", "_", "1", "\u{e9}"], 3) { v.push(("variable", format!("?{}", x))); }
+    v
+}
+
+#[test] fn w__parser__generated_terms_are_kept_verbatim_in_every_position() {
+    // (text with the placeholder TERM, does the position admit literals, does it admit blank nodes)
+    let contexts: [(&str, bool, bool); 6] = [
+        ("SELECT * WHERE { ?s <http://e/p> TERM }", true, true),
+        ("SELECT * WHERE { ?s <http://e/p> TERM . }", true, true),
+        ("SELECT * WHERE { ?s <http://e/p> TERM ; <http://e/q> ?z }", true, true),
+        ("SELECT * WHERE { ?s <http://e/p> TERM . ?z <http://e/q> ?s }", true, true),
+        ("SELECT * WHERE { TERM <http://e/p> ?o }", false, true),
+        ("SELECT * WHERE { ?s ?p ?o FILTER(TERM = ?o) }", true, false),   // the expression grammar has no blank nodes
+    ];
+    const CANON: &str = "zz:CANONICAL";
+    let esc = |s: &str| { let d = format!("{:?}", s); d[1..d.len() - 1].to_string() };
+    let mut checked = 0u64;
+    for (ctx, literals_ok, blank_ok) in contexts {
+        let canon_text = ctx.replace("TERM", CANON);
+        let canonical = match parse_combined_query(&canon_text) { Ok((rest, tree)) if rest.trim().is_empty() => format!("{:?}", tree), other => panic!("canonical query {:?} does not parse: {:?}", canon_text, other.map(|(r, _)| r.to_string())) };
+        assert!(canonical.matches(CANON).count() == 1, "canonical tree of {:?} does not hold the term exactly once: {}", canon_text, canonical);
+        for (class, term) in generated_terms() {
+            if !literals_ok && (class == "string literal" || class == "numeric / boolean literal") { continue; }
+            if !blank_ok && class == "blank node label" { continue; }
+            let text = ctx.replace("TERM", &term);
+            let parsed = no_panic("parse_combined_query", &text, || parse_combined_query(&text).map(|(rest, tree)| (rest.to_string(), format!("{:?}", tree))).map_err(|e| format!("{:?}", e)));
+            checked += 1;
+            match parsed {
+                Ok((rest, got)) => {
+                    assert!(rest.trim().is_empty(), "{} {:?}: query {:?} accepted with unconsumed input {:?}", class, term, text, rest);
+                    let want = canonical.replace(CANON, &esc(&term));
+                    assert!(got == want, "{} {:?}: query {:?} parses to a tree that does not hold the term as written:\n  expected: {}\n  got:      {}", class, term, text, want, got);
+                }
+                Err(e) => panic!("{} {:?} (valid by the SPARQL token grammar): query {:?} is rejected: {}", class, term, text, e),
+            }
+        }
+    }
+    assert!(checked > 10_000);
+}
